@@ -19,7 +19,7 @@ from ..gen_query import gen_document
 from ..model import render_document, render_sdl, render_json
 
 RULE = ("adversarial (schema, query) texts, one isolated worker process each: fragment-spread cycles of length 1..6 on objects, "
-        "interfaces and unions, with and without `__typename`, direct and through fields; mixed-type cycles; recursive input types "
+        "interfaces and unions, with and without `__typename`, direct and through fields, and with every link of the cycle a spread directly under an inline fragment; mixed-type cycles; recursive input types "
         "(nullable, list, non-null pairs, self non-null, @oneOf) used as variables, with and without object-literal default values; selection / inline-fragment / list-type / "
         "default-value nesting 8..64, 200 and 3000; interfaces without implementors, one-member and self-referential unions; "
         "unions that are members of themselves / of each other (cycles of 1..3), unions holding interfaces, interfaces and objects "
